@@ -180,6 +180,24 @@ func runHistory(ft fataler, f pools.Factory, ops []pools.Op, opt runOpt) (*model
 				for x := range touched {
 					touched[x] = epoch()
 				}
+				if lookup != nil && !m.dead {
+					// ... including the not-yet-cleaned record of a lease that had lapsed: the subscriber holds
+					// its old value again (observed, not assumed). That is no violation as long as nobody else
+					// holds the value; the model adopts it so that later steps are judged against what the
+					// restarted instance really holds.
+					for _, x := range subs {
+						if _, holds := m.has[x]; holds {
+							continue
+						}
+						if got := lookup(x); got != "" {
+							if _, taken := m.holder[got]; !taken {
+								m.logf("reload resurrected lapsed %s=%s", x, got)
+								m.onAlloc(ft, x, got, inRange, lookup)
+								touched[x] = epoch()
+							}
+						}
+					}
+				}
 				m.freed = map[string]string{}
 				// lapsedVal is kept: a stale record that lost (or won) the conflict stays in the store across reloads
 			}
